@@ -118,6 +118,41 @@ func c06Kinds() []c06Kind {
 			local: [2]string{"let items := [10, 20, 30];", "let items := [10, 20, 30];"},
 			open:  "for i, v in items {", close: "}",
 			places: []c06Place{{"for-index", "i", "i32", "i"}, {"for-index", "(i)", "i32", "i"}}},
+		{name: "for-index-discarded-value", noMutVar: true,
+			header: [2]string{"fn work()", "fn work()"}, call: "work();",
+			local: [2]string{"let items := [10, 20, 30];", "let items := [10, 20, 30];"},
+			open:  "for i, _ in items {", close: "}",
+			places: []c06Place{{"for-index-discarded-value", "i", "i32", "i"}, {"for-index-discarded-value", "(i)", "i32", "i"}}},
+		{name: "for-index-range", noMutVar: true,
+			header: [2]string{"fn work()", "fn work()"}, call: "work();",
+			local: [2]string{"let lo: i32 = 0;\n    let hi: i32 = 3;", "let lo: i32 = 0;\n    let hi: i32 = 3;"},
+			open:  "for i, v in lo..hi {", close: "}",
+			places: []c06Place{{"for-index-range", "i", "i32", "i"}}},
+		{name: "for-index-range-discarded-value", noMutVar: true,
+			header: [2]string{"fn work()", "fn work()"}, call: "work();",
+			local: [2]string{"let lo: i32 = 0;\n    let hi: i32 = 3;", "let lo: i32 = 0;\n    let hi: i32 = 3;"},
+			open:  "for i, _ in lo..hi {", close: "}",
+			places: []c06Place{{"for-index-range-discarded-value", "i", "i32", "i"}}},
+		{name: "for-index-string", noMutVar: true,
+			header: [2]string{"fn work()", "fn work()"}, call: "work();",
+			local: [2]string{"let text := \"abc\";", "let text := \"abc\";"},
+			open:  "for i, ch in text {", close: "}",
+			places: []c06Place{{"for-index-string", "i", "i32", "i"}}},
+		{name: "for-index-string-discarded-value", noMutVar: true,
+			header: [2]string{"fn work()", "fn work()"}, call: "work();",
+			local: [2]string{"let text := \"abc\";", "let text := \"abc\";"},
+			open:  "for i, _ in text {", close: "}",
+			places: []c06Place{{"for-index-string-discarded-value", "i", "i32", "i"}}},
+		{name: "for-key-map", noMutVar: true,
+			header: [2]string{"fn work()", "fn work()"}, call: "work();",
+			local: [2]string{"let tab := {\"a\" => 1, \"b\" => 2} as map[str]i32;", "let tab := {\"a\" => 1, \"b\" => 2} as map[str]i32;"},
+			open:  "for k, v in tab {", close: "}",
+			places: []c06Place{{"for-key-map", "k", "str", "k"}}},
+		{name: "for-key-map-discarded-value", noMutVar: true,
+			header: [2]string{"fn work()", "fn work()"}, call: "work();",
+			local: [2]string{"let tab := {\"a\" => 1, \"b\" => 2} as map[str]i32;", "let tab := {\"a\" => 1, \"b\" => 2} as map[str]i32;"},
+			open:  "for k, _ in tab {", close: "}",
+			places: []c06Place{{"for-key-map-discarded-value", "k", "str", "k"}}},
 		{name: "catch-error", noMutVar: true,
 			header: [2]string{"fn work()", "fn work()"}, call: "work();",
 			open: "let z := fail() catch e {", close: "} 0;",
@@ -245,7 +280,7 @@ func c06Program(k c06Kind, variant int, body string, withWitness string) string 
 func checkC06(c *Ctx) error {
 	r := c.R
 	r.Exhaustive = true
-	r.Rule = "finite product enumerated completely: immutable place kind {local const scalar/struct/array, module const, const inside a method, two-variable for index, catch error variable, &T parameter, &T receiver, &T local} x access path {ident, .f, .f.g, [k], (x), whole} x mutation form {=, +=, -=, *=, ++, --, &' borrow, pass to &' parameter, &'-receiver method} x context {plain, if, else, while, match arm, closure, block}; every mutant must be rejected by the real compiler; control = same program with the binding made mutable (or without the mutation when no mutable counterpart exists) must be accepted; non-trivial = a distinct mutant whose control was accepted"
+	r.Rule = "finite product enumerated completely: immutable place kind {local const scalar/struct/array, module const, const inside a method, two-variable for index (over dynamic arrays, ranges, strings and map keys, with a named and with a discarded `_` value variable), catch error variable, &T parameter, &T receiver, &T local} x access path {ident, .f, .f.g, [k], (x), whole} x mutation form {=, +=, -=, *=, ++, --, &' borrow, pass to &' parameter, &'-receiver method} x context {plain, if, else, while, match arm, closure, block}; every mutant must be rejected by the real compiler; control = same program with the binding made mutable (or without the mutation when no mutable counterpart exists) must be accepted; non-trivial = a distinct mutant whose control was accepted"
 	r.Assumptions = []string{"rejection for any reason counts as rejected only when the control is accepted, so the verdict is attributable to the mutation"}
 	kinds := c06Kinds()
 	type cse struct {
